@@ -30,6 +30,12 @@ namespace gtry {
 
 hlim::Node_Rewire::RewireOperation rightShiftRewireOp(size_t width, size_t amount, hlim::Node_Shift::fill fill)
 {
+	// a shift by more than the width shifts everything out, a rotate is periodic in the width
+	if (fill == hlim::Node_Shift::fill::rotate)
+		amount = width ? amount % width : 0;
+	else
+		amount = std::min(amount, width);
+
 	hlim::Node_Rewire::RewireOperation rewireOp;
 	if (amount < width) {
 		rewireOp.ranges.push_back({
@@ -77,6 +83,12 @@ hlim::Node_Rewire::RewireOperation rightShiftRewireOp(size_t width, size_t amoun
 
 hlim::Node_Rewire::RewireOperation leftShiftRewireOp(size_t width, size_t amount, hlim::Node_Shift::fill fill)
 {
+	// a shift by more than the width shifts everything out, a rotate is periodic in the width
+	if (fill == hlim::Node_Shift::fill::rotate)
+		amount = width ? amount % width : 0;
+	else
+		amount = std::min(amount, width);
+
 	hlim::Node_Rewire::RewireOperation rewireOp;
 
 	switch (fill) {
